@@ -515,3 +515,558 @@ def check_C02(ctx, rep):
     rep.assumptions += ['every CFG path is treated as feasible', 'floating point ratio values are not decided',
                         'fractions are validated NaN-free (C12.R1)']
     return 'static path analysis of gating, completeness and strictness of the padding limit tests and of the counters they read'
+
+
+# ------------------------------------------------------------------ C03
+
+def is_sds(e, a_field, b_field):
+    """e == a.saturating_duration_since(b) with a, b loads of the named fields"""
+    e = unload(e)
+    if not is_call(e, 'saturating_duration_since'):
+        return False
+    a, b = e[2][0], e[2][1]
+    a = a[1] if a[0] == 'ref' else a
+    return is_field(a, a_field) and is_field(b, b_field)
+
+
+def check_blocking(ctx, rep, pid):
+    prog, an = ctx.prog, ctx.an
+    fn = prog.fn(FW, 'Framework', 'below_limit_blocking')
+    fa = an.get(fn)
+    rec = lambda f: callee_decl(f).endswith('AddAssign::add_assign')
+    pf = an.paths(fn, rec, tag='add_assign')
+    rep.rule(pid + '.R3', 'must-consult: every return of below_limit_blocking that is not the constant false lies on paths '
+             'that (a) took the true edges of the action\'s replace flag and of blocking_active, or (b) took the true edge of '
+             'm_block_dur < allowed_blocked_microsec, or (c) for BOTH fractions: not set (f > 0.0 false) or blocked/elapsed >= f was false')
+    rep.rule(pid + '.R4', 'comparison table: budget test strict <; deny iff share >= fraction with share = '
+             'div_duration_f64(own resp. global blocked duration, now - machine_start resp. framework_start); the blocked '
+             'durations are the stored blocking_duration plus, on every path where blocking_active is true, '
+             'now.saturating_duration_since(blocking_started)')
+    # locals holding the two durations: initial value from the fields
+    durs = {}
+    for (pe, v, site, mp) in stores(fa):
+        if pe[0] == 'local' and not mp['pr']:
+            vv = unload(v)
+            if is_field(vv, 'blocking_duration', 'MachineRuntime'):
+                durs['machine'] = pe[1]
+            elif is_field(vv, 'blocking_duration', 'Framework'):
+                durs['global'] = pe[1]
+    if set(durs) != {'machine', 'global'}:
+        rep.fail_closed(pid + '.R4', 'below_limit_blocking: locals initialised from runtime.blocking_duration and self.blocking_duration')
+        return
+
+    def is_dur(e, who):
+        e = unload(e)
+        return e == ('local', durs[who])
+
+    # every writer of the two locals
+    for who, l in durs.items():
+        for (b, k, part) in fa.defs().get(l, []):
+            v = fa.def_value(l, b, k)
+            ok = is_field(v, 'blocking_duration', 'MachineRuntime' if who == 'machine' else 'Framework')
+            rep.ob(pid + '.R4', fn, '%s-duration-init' % who, ok, 'initialised from %s' % shape(v))
+        for (b, f, args, t) in calls(fa):
+            for i, a in enumerate(args):
+                if a == ('ref', ('local', l)) and fa.fn.local_ty(t['a'][i].get('m', t['a'][i].get('c'))['l']).startswith('&mut'):
+                    ok = callee_decl(f).endswith('AddAssign::add_assign') and is_sds(args[1], 'current_time', 'blocking_started')
+                    rep.ob(pid + '.R4', fn, '%s-duration-update' % who, ok, '%s(%s)' % (callee_str(f), ', '.join(show(x) for x in args)))
+                    st = pf.at_entry(b)
+                    ok2, w = all_paths(st, lambda S: any(f2[0] == 'btrue' and f2[2] is True and is_field(f2[1], 'blocking_active', 'Framework') for f2 in S))
+                    rep.ob(pid + '.R4', fn, '%s-duration-update-only-while-blocking' % who, ok2, 'update guarded by blocking_active')
+
+    def frac_is(e, who):
+        return is_field(e, 'max_blocking_frac', 'Machine' if who == 'machine' else 'Framework')
+
+    def share_ok(e, who):
+        e = unload(e)
+        if not is_call(e, 'div_duration_f64'):
+            return False
+        a, b = e[2][0], e[2][1]
+        start = 'machine_start' if who == 'machine' else 'framework_start'
+        return is_dur(a, who) and is_sds(b, 'current_time', start)
+
+    def ongoing_counted(S, who):
+        """if blocking is active on this path, the ongoing block was added to the duration"""
+        active = any(f[0] == 'btrue' and f[2] is True and is_field(f[1], 'blocking_active', 'Framework') for f in S)
+        if not active:
+            return True
+        return any(f[0] == 'called' and f[1].endswith('add_assign') and f[2][0] == ('ref', ('local', durs[who]))
+                   and is_sds(f[2][1], 'current_time', 'blocking_started') for f in S)
+
+    def replace_case(S):
+        act = any(f[0] == 'btrue' and f[2] is True and is_field(f[1], 'blocking_active', 'Framework') for f in S)
+        rp = False
+        for f in S:
+            if f[0] == 'btrue' and f[2] is True:
+                e = f[1]
+                alts = e[1] if e[0] == 'phi' else (e,)
+                if any(is_field(x, 'replace') and 'BlockOutgoing' in str(x) for x in alts) and \
+                        all((is_field(x, 'replace') and 'BlockOutgoing' in str(x)) or is_const(x, 0) for x in alts):
+                    rp = True
+        return act and rp
+
+    def budget(S):
+        return has_cmp(S, 'lt', lambda l: is_dur(l, 'machine'), lambda r: is_field(r, 'allowed_blocked_microsec', 'MachineRuntime'), True) \
+            and ongoing_counted(S, 'machine')
+
+    def gate(S, who):
+        if has_cmp(S, 'lt', lambda l: is_const(l, 0.0), lambda r: frac_is(r, who), False):
+            return True
+        if has_cmp(S, 'le', lambda l: frac_is(l, who), lambda r: share_ok(r, who), False) and ongoing_counted(S, who):
+            return True
+        if has_cmp(S, 'lt', lambda l: share_ok(l, who), lambda r: frac_is(r, who), True) and ongoing_counted(S, who):
+            return True
+        return False
+
+    n_ret = 0
+    for (b, k, v) in ret_defs(fa):
+        n_ret += 1
+        st = pf.at(b, k)
+        if is_false_const(v):
+            def deny_ok(S):
+                return any(has_cmp(S, 'le', lambda l: frac_is(l, who), lambda r: share_ok(r, who), True) for who in ('machine', 'global'))
+            ok, w = all_paths(st, deny_ok)
+            rep.ob(pid + '.R4', fn, 'deny-return', ok, 'a `false` return is reached only through share >= fraction' + ('' if ok else '; witness: ' + show_facts(w)))
+            continue
+        for who in ('machine', 'global'):
+            ok, w = all_paths(st, lambda S: replace_case(S) or budget(S) or gate(S, who))
+            rep.ob(pid + '.R3', fn, 'ret[%s]:%s-fraction-consulted' % (shape(v), who), ok,
+                   'replace-while-blocking, budget edge or %s fraction gate on every path' % who + ('' if ok else '; witness path: ' + show_facts(w)))
+    rep.count_floor(pid + '.R3', 'returns of below_limit_blocking', n_ret, 3)
+    # R4 operator table
+    found = {'budget': False, 'm_set': False, 'g_set': False, 'm_share': False, 'g_share': False}
+    for (b, e) in switch_conditions(fa):
+        e2 = strip_sites(e)
+        if e2[0] == 'call':
+            name = e2[1]
+            if name.endswith('PartialOrd::lt') or name.endswith('PartialOrd::gt') or name.endswith('PartialOrd::le') or name.endswith('PartialOrd::ge'):
+                a, c = e2[2]
+                a = ('load', a[1]) if a[0] == 'ref' else a
+                c = ('load', c[1]) if c[0] == 'ref' else c
+                if any(is_field(x, 'allowed_blocked_microsec') for x in (a, c)):
+                    ok = (name.endswith('::lt') and is_dur(a, 'machine') and is_field(c, 'allowed_blocked_microsec')) or \
+                         (name.endswith('::gt') and is_dur(c, 'machine') and is_field(a, 'allowed_blocked_microsec'))
+                    found['budget'] = found['budget'] or ok
+                    rep.ob(pid + '.R4', fn, 'comparison:budget', ok, shape(e2))
+        if e2[0] != 'bin':
+            continue
+        op, l, r = e2[1], e2[2], e2[3]
+        for who, key in (('machine', 'm'), ('global', 'g')):
+            if frac_is(l, who) or frac_is(r, who):
+                other = r if frac_is(l, who) else l
+                if num(other) is not None:
+                    ok = (op == 'Gt' and frac_is(l, who) and is_const(r, 0.0)) or (op == 'Lt' and frac_is(r, who) and is_const(l, 0.0))
+                    found[key + '_set'] = found[key + '_set'] or ok
+                else:
+                    ok = (op in ('Ge', 'Lt') and share_ok(l, who) and frac_is(r, who)) or (op in ('Le', 'Gt') and share_ok(r, who) and frac_is(l, who))
+                    found[key + '_share'] = found[key + '_share'] or ok
+                rep.ob(pid + '.R4', fn, 'comparison:' + shape(e2)[:60], ok, 'operator/operands of %s' % shape(e2))
+    for k2, v2 in found.items():
+        rep.ob(pid + '.R4', fn, 'table-entry:' + k2, v2, 'comparison %s present' % k2)
+
+
+def check_accounting_blocking(ctx, rep, pid):
+    prog, an = ctx.prog, ctx.an
+    F = fw_fns(prog)
+    rep.rule(pid + '.R5', 'accounting: blocking_started/blocking_active are set only when blocking was not active (a repeated '
+             'BlockingBegin does not restart the clock); in the BlockingEnd arm the only value added to the global and per-machine '
+             'blocking_duration is now.saturating_duration_since(blocking_started) computed while blocking_active was true (else zero), '
+             'and the flag is cleared there; writers of these fields are new and process_event only')
+    fields = [('blocking_started', 'Framework'), ('blocking_active', 'Framework'), ('blocking_duration', 'Framework'),
+              ('blocking_duration', 'MachineRuntime'), ('machine_start', 'MachineRuntime'), ('framework_start', 'Framework'),
+              ('allowed_blocked_microsec', 'MachineRuntime'), ('current_time', 'Framework')]
+    for name, fn in F.items():
+        fa = an.get(fn)
+        for (fld, adt) in fields:
+            ws = field_stores(fa, fld, adt)
+            # &mut borrows handed to calls
+            for (b, f, args, t) in calls(fa):
+                if decl_matches(f, ('AddAssign::add_assign',)) and args and args[0][0] == 'ref' and is_field(args[0][1], fld, adt):
+                    ws.append((args[0][1], ('call', callee_str(f), args), (b, 0)))
+            for (pe, v, site) in ws:
+                if name == 'new':
+                    continue
+                allowed = 'trigger_events' if fld == 'current_time' else 'process_event'
+                rep.ob(pid + '.R5', fn, 'writer:%s.%s' % (adt, fld), name == allowed, '%s.%s written in %s' % (adt, fld, name))
+    fn = F['process_event']
+    fa = an.get(fn)
+    pf = an.paths(fn, history=True)
+    n = 0
+    for (pe, v, site) in field_stores(fa, 'blocking_started', 'Framework'):
+        n += 1
+        st = pf.at(site[0], site[1])
+        ok, w = all_paths(st, lambda S: any(f[0] == 'btrue' and f[2] is False and is_field(f[1], 'blocking_active', 'Framework') for f in S))
+        rep.ob(pid + '.R5', fn, 'blocking_started-only-when-not-active', ok, 'store dominated by the false edge of blocking_active')
+        rep.ob(pid + '.R5', fn, 'blocking_started-value', is_field(v, 'current_time', 'Framework'), 'value %s' % shape(v))
+    rep.count_exact(pid + '.R5', 'stores to blocking_started in process_event', n, 1)
+    for (pe, v, site) in field_stores(fa, 'blocking_active', 'Framework'):
+        st = pf.at(site[0], site[1])
+        if is_const(v, 1):
+            ok, w = all_paths(st, lambda S: any(f[0] == 'variant' and f[2] == 'BlockingBegin' for f in S))
+            rep.ob(pid + '.R5', fn, 'blocking_active-set-in-BlockingBegin', ok, '')
+        elif is_const(v, 0):
+            ok, w = all_paths(st, lambda S: any(f[0] == 'variant' and f[2] == 'BlockingEnd' for f in S) and
+                              any(f[0] == 'btrue' and f[2] is True and is_field(f[1], 'blocking_active', 'Framework') for f in S))
+            rep.ob(pid + '.R5', fn, 'blocking_active-cleared-in-BlockingEnd', ok, '')
+        else:
+            rep.ob(pid + '.R5', fn, 'blocking_active-value', False, 'non-constant value %s' % shape(v))
+    # additions to the durations
+    adds = 0
+    for (b, f, args, t) in calls(fa):
+        if not decl_matches(f, ('AddAssign::add_assign',)):
+            continue
+        tgt = args[0][1] if args[0][0] == 'ref' else None
+        if tgt is None or not (is_field(tgt, 'blocking_duration')):
+            continue
+        adds += 1
+        val = args[1]
+        alts = val[1] if val[0] == 'phi' else (val,)
+        okv = all(is_sds(x, 'current_time', 'blocking_started') or is_call(unload(x), 'Duration::zero') for x in alts) and \
+            any(is_sds(x, 'current_time', 'blocking_started') for x in alts)
+        who = 'global' if is_field(tgt, 'blocking_duration', 'Framework') else 'machine'
+        rep.ob(pid + '.R5', fn, '%s-duration-added-value' % who, okv, 'adds %s' % shape(val))
+        st = pf.at_entry(b)
+        ok, w = all_paths(st, lambda S: any(f2[0] == 'variant' and f2[2] == 'BlockingEnd' for f2 in S))
+        rep.ob(pid + '.R5', fn, '%s-duration-added-in-BlockingEnd' % who, ok, '')
+        if who == 'machine':
+            idx = base_of(tgt)
+            okix = idx is not None and idx[0] == 'idx' and is_range_loop_var(fa, idx[2])
+            rep.ob(pid + '.R5', fn, 'machine-duration-indexed-by-loop-variable', okix, '')
+    rep.count_exact(pid + '.R5', 'additions to blocking_duration', adds, 2)
+    # the non-zero definition of `blocked` is computed under blocking_active
+    for b in sorted(fa.cfg.reach):
+        bb = fa.blocks[b]
+        t = bb['t']
+        if t['k'] == 'call' and callee_decl(t['f']).endswith('saturating_duration_since'):
+            st = pf.at_entry(b)
+            ok, w = all_paths(st, lambda S: any(f[0] == 'btrue' and f[2] is True and is_field(f[1], 'blocking_active', 'Framework') for f in S))
+            rep.ob(pid + '.R5', fn, 'elapsed-computed-while-active', ok, 'saturating_duration_since under blocking_active')
+
+
+def check_clock(ctx, rep, pid):
+    prog = ctx.prog
+    rep.rule(pid + '.R6', 'clock discipline: the trait time::Instant exposes exactly one operation, saturating_duration_since, so the '
+             'generic framework cannot subtract instants any other way; the std impl delegates to Instant::saturating_duration_since; '
+             'div_duration_f64 divides self by rhs')
+    tr = prog.traits.get('maybenot::time::Instant')
+    if not tr:
+        rep.fail_closed(pid + '.R6', 'trait maybenot::time::Instant')
+        return
+    fns_ = [i['name'] for i in tr['items'] if i['kind'].lower().startswith('fn') or 'Fn' in i['kind']]
+    rep.ob(pid + '.R6', 'time::Instant', 'trait-methods', fns_ == ['saturating_duration_since'], 'methods: %s' % fns_)
+    an = ctx.an
+    f = prog.fn(FW, 'Instant', 'saturating_duration_since', 'Instant')
+    fa = an.get(f)
+    cs = calls(fa)
+    ok = len(cs) == 1 and callee_str(cs[0][1]).endswith('time::Instant::saturating_duration_since') and cs[0][1].get('crate') == 'std'
+    ok = ok and cs[0][2][1] == ('param', 2)
+    rep.ob(pid + '.R6', f, 'delegates-to-std-saturating', ok, 'calls: %s' % [callee_str(c[1]) for c in cs])
+    d = prog.fn(FW, 'Duration', 'div_duration_f64', 'Duration')
+    da = an.get(d)
+    rv = [v for (b, k, v) in ret_defs(da)]
+    okd = len(rv) == 1 and rv[0][0] == 'bin' and rv[0][1] == 'Div' and is_call(rv[0][2], 'as_secs_f64') and is_call(rv[0][3], 'as_secs_f64') \
+        and rv[0][2][2][0] in (('ref', ('local', 1)), ('param', 1), ('ref', ('param', 1))) or (len(rv) == 1 and is_call(rv[0], 'div_duration_f64') and rv[0][2][0] == ('param', 1))
+    if len(rv) == 1 and rv[0][0] == 'bin' and is_call(rv[0][2], 'as_secs_f64') and is_call(rv[0][3], 'as_secs_f64'):
+        def pidx(a):
+            for x in walk(a):
+                if x and x[0] == 'param':
+                    return x[1]
+                if x and x[0] == 'local':
+                    return x[1]
+            return None
+        okd = rv[0][1] == 'Div' and pidx(rv[0][2][2][0]) == 1 and pidx(rv[0][3][2][0]) == 2
+    rep.ob(pid + '.R6', d, 'self-divided-by-rhs', bool(okd), 'returns %s' % (shape(rv[0]) if rv else '?'))
+    z = prog.fn(FW, 'Duration', 'from_micros', 'Duration')
+    za = an.get(z)
+    rv = [v for (b, k, v) in ret_defs(za)]
+    okz = len(rv) == 1 and is_call(rv[0], 'Duration::from_micros') and rv[0][2][0] == ('param', 1)
+    rep.ob(pid + '.R6', z, 'from_micros-delegates', okz, 'returns %s' % (shape(rv[0]) if rv else '?'))
+
+
+def check_C03(ctx, rep):
+    pid = 'C03'
+    rule_gating(ctx, rep, pid)
+    rule_kind_table(ctx, rep, pid)
+    check_blocking(ctx, rep, pid)
+    check_accounting_blocking(ctx, rep, pid)
+    check_clock(ctx, rep, pid)
+    rep.assumptions += ['every CFG path is treated as feasible', 'values of the quotients (e.g. 0/0) are not decided',
+                        "the caller's Instant/Duration implementation honours the documented contract of saturating_duration_since"]
+    return 'static path analysis of gating, completeness, strictness and accounting of the blocking limit tests, and of the clock discipline'
+
+
+# ------------------------------------------------------------------ C07
+
+def next_state_payload(e):
+    """e is the payload of the Option returned by State::sample_state"""
+    e = unload(e)
+    return e[0] == 'fld' and e[1][0] == 'var' and e[1][2] == 'Some' and is_call(unload(e[1][1]), '::sample_state')
+
+
+def is_transition_result_unchanged(f):
+    """fact: transition(self, mi, ev) == StateChange::Unchanged (true)"""
+    if f[0] != 'cmp' or f[1] != 'eq' or f[5] is not True:
+        return None
+    for a, c in ((f[2], f[3]), (f[3], f[2])):
+        if is_call(a, '::transition') and c[0] == 'agg' and c[1].endswith('StateChange') and c[2] == 'Unchanged':
+            return a
+    return None
+
+
+def check_state_limit_writers(ctx, rep, pid):
+    prog, an = ctx.prog, ctx.an
+    F = fw_fns(prog)
+    rep.rule(pid + '.R1', 'state_limit is written only by new (sample_limit of state 0), by transition — only on the true edge of '
+             'curr_state != next_state, on every such path exactly once before the limits are evaluated, with sample_limit of the ENTERED '
+             'state\'s action or STATE_LIMIT_MAX — and by decrement_limit (minus one, guarded by > 0): sampled once per stay, '
+             'self-transitions do not refresh, re-entry does')
+    for name, fn in F.items():
+        fa = an.get(fn)
+        for (pe, v, site) in field_stores(fa, 'state_limit', 'MachineRuntime'):
+            rep.ob(pid + '.R1', fn, 'writer:state_limit', name in ('new', 'transition', 'decrement_limit'), 'state_limit written in %s' % name)
+    # transition
+    fn = F['transition']
+    fa = an.get(fn)
+    pfh = an.paths(fn, history=True)
+    sl = field_stores(fa, 'state_limit', 'MachineRuntime')
+    rep.count_exact(pid + '.R1', 'state_limit stores in transition', len(sl), 1)
+    for (pe, v, site) in sl:
+        st = pfh.at(site[0], site[1])
+        ok, w = all_paths(st, lambda S: has_cmp(S, 'ne', lambda l: is_field(l, 'current_state', 'MachineRuntime'), next_state_payload, True)
+                          or has_cmp(S, 'eq', lambda l: is_field(l, 'current_state', 'MachineRuntime'), next_state_payload, False))
+        rep.ob(pid + '.R1', fn, 'limit-resampled-only-on-state-change', ok, 'store reached only via curr_state != next_state' + ('' if ok else '; witness ' + show_facts(w)))
+        idx = base_of(unload(pe))
+        rep.ob(pid + '.R1', fn, 'limit-stored-for-own-machine', idx is not None and idx[0] == 'idx' and idx[2] == ('param', 2) and is_field(idx[1], 'runtime'), show(pe))
+        alts = v[1] if v[0] == 'phi' else (v,)
+        okv = True
+        for a in alts:
+            if a[0] == 'cdef' and a[1].endswith('STATE_LIMIT_MAX'):
+                continue
+            if is_call(a, '::sample_limit'):
+                act = a[2][0]
+                act = act[1] if act[0] in ('refv', 'ref') else act
+                act = unload(act)
+                # ((machines[mi].states[next_state].action as Some).0
+                good = act[0] == 'fld' and act[1][0] == 'var' and act[1][2] == 'Some' and is_field(act[1][1], 'action', 'State')
+                if good:
+                    sidx = base_of(act[1][1])
+                    good = sidx is not None and sidx[0] == 'idx' and next_state_payload(sidx[2]) and is_field(sidx[1], 'states', 'Machine')
+                    midx = base_of(sidx[1]) if good else None
+                    good = good and midx is not None and midx[0] == 'idx' and midx[2] == ('param', 2)
+                okv = okv and good
+            else:
+                okv = False
+        rep.ob(pid + '.R1', fn, 'limit-value-from-entered-state', okv and any(is_call(a, '::sample_limit') for a in alts), 'value %s' % shape(v))
+        # No-action alternative only when the entered state has no action
+        # every path from the state store to the limits evaluation passes the limit store exactly once
+        cs_stores = [s for (p2, v2, s) in field_stores(fa, 'current_state', 'MachineRuntime') if next_state_payload(v2)]
+        bal = [b for (b, f, a, t) in calls(fa) if callee_str(f).endswith('::below_action_limits')]
+        for s2 in cs_stores:
+            if not bal:
+                break
+            region = fa.cfg.reachable_from(s2[0], avoid=())
+            lo, hi = count_between(fa, s2[0], bal[0], {site[0]})
+            rep.ob(pid + '.R1', fn, 'limit-resampled-on-every-state-change', (lo, hi) == (1, 1),
+                   'state_limit stores between the current_state store and the limit evaluation: min %s max %s' % (lo, hi))
+    # the store of a regular next state
+    for (pe, v, site) in field_stores(fa, 'current_state', 'MachineRuntime'):
+        if next_state_payload(v):
+            st = pfh.at(site[0], site[1])
+            ok, w = all_paths(st, lambda S: has_cmp(S, 'ne', lambda l: is_field(l, 'current_state', 'MachineRuntime'), next_state_payload, True))
+            rep.ob(pid + '.R1', fn, 'state-store-on-change-edge', ok, '')
+    # decrement_limit
+    fn = F['decrement_limit']
+    fa = an.get(fn)
+    pf = an.paths(fn)
+    for (pe, v, site) in field_stores(fa, 'state_limit', 'MachineRuntime'):
+        okv = v[0] == 'bin' and v[1] == 'Sub' and is_field(v[2], 'state_limit', 'MachineRuntime') and is_const(v[3], 1)
+        rep.ob(pid + '.R1', fn, 'decrement-by-one', okv, 'value %s' % shape(v))
+        st = pf.at(site[0], site[1])
+        ok, w = all_paths(st, lambda S: cmp_int_true(S, 'lt', lambda l: is_const(l, 0), lambda r: is_field(r, 'state_limit', 'MachineRuntime')))
+        rep.ob(pid + '.R1', fn, 'decrement-guarded-by-positive', ok, 'state_limit > 0 holds (not invalidated) at the decrement')
+        idx = base_of(unload(pe))
+        rep.ob(pid + '.R1', fn, 'decrement-own-machine', idx is not None and idx[0] == 'idx' and idx[2] == ('param', 2), show(pe))
+    # new
+    fn = F['new']
+    fa = an.get(fn)
+    for (pe, v, site) in field_stores(fa, 'state_limit', 'MachineRuntime'):
+        okv = is_call(v, '::sample_limit')
+        if okv:
+            act = v[2][0]
+            act = act[1] if act[0] in ('refv', 'ref') else act
+            act = unload(act)
+            okv = act[0] == 'fld' and act[1][0] == 'var' and is_field(act[1][1], 'action', 'State')
+            sidx = base_of(act[1][1]) if okv else None
+            okv = okv and sidx is not None and sidx[0] == 'idx' and is_const(sidx[2], 0)
+        rep.ob(pid + '.R1', fn, 'initial-limit-from-state-0', okv, 'value %s' % shape(v))
+
+
+def count_between(fa, a, b, marks):
+    """[min,max] number of marked blocks on paths from block a to block b (b excluded)"""
+    cfg = fa.cfg
+    region = {x for x in cfg.reachable_from(a) if cfg.can_reach(x, b)}
+    memo_min, memo_max = {}, {}
+
+    def go(x, stack):
+        if x == b:
+            return (0, 0)
+        if x in memo_min:
+            return (memo_min[x], memo_max[x])
+        if x in stack:
+            return None
+        stack.add(x)
+        lo, hi = None, None
+        for (y, l) in cfg.succ[x]:
+            if y not in region:
+                continue
+            r = go(y, stack)
+            if r is None:
+                continue
+            lo = r[0] if lo is None else min(lo, r[0])
+            hi = r[1] if hi is None else max(hi, r[1])
+        stack.discard(x)
+        if lo is None:
+            return None
+        m = 1 if x in marks else 0
+        memo_min[x], memo_max[x] = lo + m, hi + m
+        return (lo + m, hi + m)
+    r = go(a, set())
+    return r if r else (0, 0)
+
+
+def check_decrement_sites(ctx, rep, pid):
+    prog, an = ctx.prog, ctx.an
+    F = fw_fns(prog)
+    rep.rule(pid + '.R2', 'decrement_limit is called only from the PaddingSent, BlockingBegin and TimerBegin arms of process_event, '
+             'each call reached only through transition(mi, same event) == Unchanged and current_state != STATE_END for the machine '
+             'named by the event (for the broadcast BlockingBegin: mi == event id), with that same id as argument')
+    sites = []
+    for name, fn in F.items():
+        fa = an.get(fn)
+        for (b, f, args, t) in calls(fa):
+            if callee_str(f).endswith('::decrement_limit') and f.get('crate') == FW:
+                sites.append((fn, fa, b, args))
+    want = sorted(v['name'] for v in prog.adt('maybenot::event::TriggerEvent')['variants']
+                  if v['name'] in ('PaddingSent', 'BlockingBegin', 'TimerBegin'))
+    got = []
+    for (fn, fa, b, args) in sites:
+        rep.ob(pid + '.R2', fn, 'decrement_limit-caller', fn.name == 'process_event', 'called from %s' % fn.name)
+        if fn.name != 'process_event':
+            continue
+        pfh = an.paths(fn, history=True)
+        st = pfh.at_entry(b)
+        mi = args[1]
+        for S in st:
+            var = [f[2] for f in S if f[0] == 'variant' and f[2] in ('PaddingSent', 'BlockingBegin', 'TimerBegin', 'TimerEnd', 'NormalSent',
+                                                                  'NormalRecv', 'PaddingRecv', 'TunnelRecv', 'TunnelSent', 'BlockingEnd') and 'param' in str(f[1])]
+            v = var[0] if var else '?'
+            got.append(v)
+            tr = [is_transition_result_unchanged(f) for f in S]
+            tr = [x for x in tr if x]
+            ok_tr = any(x[2][1] == strip_sites(mi) and x[2][2][0] == 'agg' and x[2][2][2] == v for x in tr)
+            ok_end = has_cmp(S, 'ne', lambda l: is_field(l, 'current_state', 'MachineRuntime') and base_of(l)[0] == 'idx' and base_of(l)[2] == strip_sites(mi),
+                             lambda r: r[0] == 'cdef' and r[1].endswith('STATE_END'), True)
+
+            def is_event_id(e):
+                return is_call(e, 'into_raw') and is_field(e[2][0], 'machine', 'TriggerEvent') and ('var', ('deref', ('param', 2)), v) in list(walk(e))
+            ok_id = is_event_id(strip_sites(mi)) or has_cmp(S, 'eq', lambda l: l == strip_sites(mi), is_event_id, True)
+            rep.ob(pid + '.R2', fn, 'arm:%s:unchanged-guard' % v, ok_tr, 'transition(self, id, Event::%s) == Unchanged on the path' % v)
+            rep.ob(pid + '.R2', fn, 'arm:%s:not-ended-guard' % v, ok_end, 'current_state != STATE_END on the path')
+            rep.ob(pid + '.R2', fn, 'arm:%s:own-id' % v, ok_id, 'argument %s is the id carried by the event' % show(mi))
+    rep.ob(pid + '.R2', '<inventory>', 'decrement-sites', sorted(set(got)) == want and len(sites) == 3, 'arms with a decrement: %s (sites %d)' % (sorted(set(got)), len(sites)))
+
+
+def check_limit_reached(ctx, rep, pid):
+    prog, an = ctx.prog, ctx.an
+    fn = prog.fn(FW, 'Framework', 'decrement_limit')
+    fa = an.get(fn)
+    pf = an.paths(fn)
+    rep.rule(pid + '.R3', 'in decrement_limit the internal LimitReached transition is raised exactly on the paths where, after the '
+             'decrement, state_limit == 0 and the current state\'s action has a limit; the pending action slot of that machine is '
+             'cleared first on every such path; no return bypasses the test')
+    tr = [(b, f, args, t) for (b, f, args, t) in calls(fa) if callee_str(f).endswith('::transition')]
+    rep.count_exact(pid + '.R3', 'LimitReached call sites', len(tr), 1)
+
+    def zero(S):
+        return cmp_int_true(S, 'eq', lambda l: is_field(l, 'state_limit', 'MachineRuntime'), lambda r: is_const(r, 0))
+
+    def haslim(S):
+        return any(f[0] == 'bcall' and f[3] is True and f[1].endswith('::has_limit') for f in S)
+    for (b, f, args, t) in tr:
+        ev = args[2]
+        rep.ob(pid + '.R3', fn, 'event-is-LimitReached', ev[0] == 'agg' and ev[2] == 'LimitReached' and args[1] == ('param', 2), 'transition(%s)' % ', '.join(show(a) for a in args[1:]))
+        st = pf.at_entry(b)
+        ok, w = all_paths(st, lambda S: zero(S) and haslim(S))
+        rep.ob(pid + '.R3', fn, 'raised-only-when-limit-zero-and-limited', ok, '' if ok else 'witness ' + show_facts(w))
+        # slot cleared before
+        clear = [s for (pe, v, s) in field_stores(fa, 'actions', 'Framework') if v[0] == 'agg' and v[2] == 'None'
+                 and unload(pe)[0] == 'idx' and unload(pe)[2] == ('param', 2)]
+        okc = bool(clear) and all(fa.cfg.dominates(c[0], b) for c in clear[:1])
+        # and the clearing itself is under the same guard (does not clear otherwise)
+        okg = True
+        for c in clear:
+            ok2, w2 = all_paths(pf.at_entry(c[0]), lambda S: zero(S) and haslim(S))
+            okg = okg and ok2
+        rep.ob(pid + '.R3', fn, 'pending-action-cleared-before-LimitReached', okc, 'actions[mi] = None dominates the call')
+        rep.ob(pid + '.R3', fn, 'pending-action-cleared-only-on-limit', okg, '')
+    # completeness: every return not passing the call crossed a false edge of one of the three tests
+    called = {b for (b, f, args, t) in tr}
+    rec = lambda f: callee_str(f).endswith('::transition')
+    pfc = an.paths(fn, rec, tag='transition')
+    for r in fa.cfg.returns:
+        def ok_ret(S):
+            if any(f[0] == 'called' for f in S):
+                return True
+            nz = cmp_int_true(S, 'ne', lambda l: is_field(l, 'state_limit', 'MachineRuntime'), lambda r: is_const(r, 0)) or \
+                has_cmp(S, 'eq', lambda l: is_field(l, 'state_limit', 'MachineRuntime'), lambda r: is_const(r, 0), False)
+            nl = any(f[0] == 'bcall' and f[3] is False and f[1].endswith('::has_limit') for f in S)
+            na = any(f[0] == 'variant' and f[2] == 'None' and is_field(f[1], 'action', 'State') for f in S)
+            return nz or nl or na
+        ok, w = all_paths(pfc.at_entry(r), ok_ret)
+        rep.ob(pid + '.R3', fn, 'no-return-bypasses-limit-test', ok, '' if ok else 'witness path returns without LimitReached: ' + show_facts(w))
+    # has_limit table
+    hl = prog.fn(FW, 'Action', 'has_limit')
+    ha = an.get(hl)
+    hp = an.paths(hl)
+    for (b, k, v) in ret_defs(ha):
+        for S in hp.at(b, k):
+            var = [f[2] for f in S if f[0] == 'variant']
+            nots = [x for f in S if f[0] == 'notvariant' for x in f[2]]
+            names = var[:1] if var else [x['name'] for x in prog.adt('maybenot::action::Action')['variants'] if x['name'] not in nots]
+            for n in names:
+                hasl = any(fl['name'] == 'limit' for fl in prog.variant('maybenot::action::Action', n)['fields'])
+                if hasl:
+                    ok = is_call(v, 'is_some')
+                    if ok:
+                        x = v[2][0]
+                        alts = x[1] if x[0] == 'phi' else (x,)
+                        alts = [a[1] if a[0] in ('ref', 'refv') else a for a in alts]
+                        ok = all(is_field(a, 'limit', 'Action') for a in alts) and any(('var', ('deref', ('param', 1)), n) in list(walk(a)) for a in alts)
+                else:
+                    ok = is_false_const(v)
+                rep.ob(pid + '.R3', hl, 'has_limit:' + n, ok, 'returns %s' % shape(v))
+
+
+def check_limit_everywhere(ctx, rep, pid):
+    prog, an = ctx.prog, ctx.an
+    rep.rule(pid + '.R4', 'for every Action variant with a limit field, every non-false return of its limit predicate is the value of '
+             'state_limit > 0 of the runtime passed in (a sampled limit of zero yields no action)')
+    for name in ('below_limit_padding', 'below_limit_blocking'):
+        fn = prog.fn(FW, 'Framework', name)
+        fa = an.get(fn)
+        for (b, k, v) in ret_defs(fa):
+            if is_false_const(v):
+                continue
+            ok = is_state_limit_gt0(v) and root_of(v[2] if is_field(v[2], 'state_limit') else v[3]) == ('param', 2)
+            rep.ob(pid + '.R4', fn, 'ret[%s]' % shape(v), ok, 'non-false return is runtime.state_limit > 0')
+
+
+def check_C07(ctx, rep):
+    pid = 'C07'
+    check_state_limit_writers(ctx, rep, pid)
+    check_decrement_sites(ctx, rep, pid)
+    check_limit_reached(ctx, rep, pid)
+    check_limit_everywhere(ctx, rep, pid)
+    rule_kind_table(ctx, rep, pid)
+    rep.assumptions += ['every CFG path is treated as feasible', 'counts over concrete histories are not decided']
+    return 'static who-may-write inventory of state_limit, guards of its three writers, call-site guards of decrement_limit and completeness of the LimitReached test'
